@@ -101,7 +101,7 @@ func New(cfg Config) *Sys {
 	if cfg.Chains == 3 {
 		names = append(names, C)
 	}
-	accts := []string{"r1", "r2", "u1", "u2", "out"}
+	accts := []string{"r1", "r2", "u1", "u2", "out", "r3"}
 	for _, n := range names {
 		s.w.Add(n, world.Options{Accounts: accts})
 	}
@@ -126,6 +126,19 @@ func New(cfg Config) *Sys {
 					world.CreateTMClient(c, ctx, s.w.Chains[m])
 				}
 				world.RegisterRelayers(c, ctx, m, "r1", "r2")
+			}
+			// r3 relays too, but the address it registered here for a counterparty is one that nobody registered over there
+			// for this chain: acknowledgements of packets it delivers name a fee recipient the source chain's registry
+			// cannot resolve (the source chain must then refuse the acknowledgement, not process it half)
+			{
+				var chains, addrs []string
+				for _, m := range names {
+					if m != n {
+						chains = append(chains, m)
+						addrs = append(addrs, ghostAddr(n, m))
+					}
+				}
+				c.App.XIBCKeeper.ClientKeeper.RegisterRelayers(ctx, c.Accounts["r3"].Acc.String(), chains, addrs)
 			}
 			u1 := c.Accounts["u1"]
 			// origin ERC-20 of this chain (deployed by u1, who holds minter role) with balance for u1
@@ -193,6 +206,9 @@ func (s *Sys) units(tok common.Address, v *big.Int) int64 {
 	return q.Int64()
 }
 
+// ghostAddr is the address relayer r3 registered on chain `on` as its own address on chain `of`.
+func ghostAddr(on, of string) string { return world.NewAccount("ghost-" + on + "-" + of).Acc.String() }
+
 // tss reports whether chain `on` follows chain `of` through a TSS client (no proofs: the TSS account's signature is the proof).
 func (s *Sys) tss(on, of string) bool { return s.cfg.TSS && on == A && of == B }
 
@@ -241,6 +257,9 @@ func (s *Sys) Ops() []string {
 	}
 	for _, t := range s.tr {
 		for _, f := range s.cfg.RecvForms {
+			if f == "g3" && !strings.Contains(t.Kind, "+callrevert") && t.Kind != "feeonly1" {
+				continue // the unresolvable fee recipient matters where an error acknowledgement must refund and where a fee is escrowed
+			}
 			out = append(out, fmt.Sprintf("recv %s %s", t.ID, f))
 		}
 	}
@@ -685,6 +704,8 @@ func (s *Sys) recvMsg(t *transfer, form string) (msgs []sdk.Msg, signer world.Ac
 	switch form {
 	case "g2":
 		signer = dst.Accounts["r2"]
+	case "g3":
+		signer = dst.Accounts["r3"]
 	case "reenc":
 		bz = reencode(bz)
 	case "alt":
@@ -890,7 +911,12 @@ func (s *Sys) Key() string {
 		default:
 			prov = stage(src, dst, t.CommitAt)
 		}
-		parts = append(parts, fmt.Sprintf("%s[%s %d]%s/%s", t.ID, t.Kind, t.Amount, st, prov))
+		// the fee recipient named in the stored acknowledgement decides whether the source chain will take it
+		rel := ""
+		if t.AckBytes != nil && src != nil && strings.Contains(fieldsOf(indepAck, t.AckBytes), ghostAddr(t.Dst, t.Src)) {
+			rel = "/fee-recipient-unknown-to-source"
+		}
+		parts = append(parts, fmt.Sprintf("%s[%s %d]%s/%s%s", t.ID, t.Kind, t.Amount, st, prov, rel))
 	}
 	// value state (token balances, escrows, bindings) — everything the conservation monitors read
 	parts = append(parts, s.valueState())
@@ -947,7 +973,60 @@ func (s *Sys) Check() []bfs.Viol {
 	}
 	s.checkConservation(add)
 	s.checkRestart(add)
+	s.checkLifecycle(add)
 	return viols
+}
+
+// checkLifecycle: governance may at any point replace a counterparty's client (toggle to another client type, or upgrade
+// it); that concerns the client's own store only. On a throw-away branch of every chain in every reachable state each
+// Tendermint client is toggled to a TSS client; every packet record (receipts, acknowledgements, commitments, send
+// counters) and every other client's entries must be untouched — otherwise the guarantees of the history before the
+// governance action are void after it.
+func (s *Sys) checkLifecycle(add addFn) {
+	for _, n := range s.w.Order {
+		c := s.w.Chains[n]
+		for _, o := range s.w.Order {
+			if o == n || s.tss(n, o) {
+				continue
+			}
+			ctx := c.ReadCtx()
+			before := c.DumpStoreCtx(ctx, host.StoreKey)
+			tcs := &tsstypes.ClientState{TssAddress: c.Accounts["u2"].Acc.String(), Pubkey: []byte{1}, PartPubkeys: [][]byte{{2}}, Threshold: 1}
+			var err error
+			func() {
+				defer func() {
+					if r := recover(); r != nil {
+						err = fmt.Errorf("panic: %v", r)
+					}
+				}()
+				err = c.App.XIBCKeeper.ClientKeeper.ToggleClient(ctx, o, tcs, &tsstypes.ConsensusState{})
+			}()
+			if err != nil {
+				continue // lifecycle outcomes themselves are C18's subject
+			}
+			own := string(host.KeyClientStorePrefix) + "/" + o + "/"
+			for _, d := range world.DiffStores(before, c.DumpStoreCtx(ctx, host.StoreKey)) {
+				key := d[1:]
+				if strings.HasPrefix(key, own) || strings.HasPrefix(key, hex.EncodeToString([]byte(own))) {
+					continue
+				}
+				var props []string
+				switch {
+				case strings.HasPrefix(key, host.KeyPacketReceiptPrefix+"/"):
+					props = []string{"C01", "C03"}
+				case strings.HasPrefix(key, host.KeyPacketAckPrefix+"/"):
+					props = []string{"C05", "C01"}
+				case strings.HasPrefix(key, host.KeyPacketCommitmentPrefix+"/"):
+					props = []string{"C04", "C05", "C03"}
+				case strings.HasPrefix(key, host.KeyNextSeqSendPrefix+"/"):
+					props = []string{"C04"}
+				}
+				for _, prop := range props {
+					add(prop, "packet-state-changed-by-client-toggle/"+strings.SplitN(key, "/", 2)[0], fmt.Sprintf("chain %s: toggling the client of %s changed %s", short[n], short[o], d))
+				}
+			}
+		}
+	}
 }
 
 // checkRestart: a chain may at any point be restarted from its exported genesis; the packet state (receipts,
@@ -1214,17 +1293,31 @@ type ScriptViol struct {
 	History []string
 }
 
+// ManySendsScript: eleven packets in flight on one path (sequences 1..11: keys of 1, 10 and 11 share a decimal prefix),
+// then packets 1 and 2 are relayed and acknowledged while the others stay in flight, then packet 10.
+var ManySendsScript = func() []string {
+	var ops []string
+	for i := 0; i < 11; i++ {
+		ops = append(ops, "send A B erc20 1")
+	}
+	ops = append(ops, "upd B A", "upd B A", "recv A>B#1 g1", "recv A>B#2 g1", "upd A B", "upd A B", "ack A>B#1 g1", "ack A>B#2 g1",
+		"recv A>B#10 g1", "upd A B", "upd A B", "ack A>B#10 g1", "recv A>B#11 g1")
+	return ops
+}()
+
 func ScriptedViolations(prop string) (steps int, out []ScriptViol) {
-	s := New(Config{Chains: 3, MaxSends: 12, Prop: prop})
 	seen := map[string]bool{}
-	for i, op := range RestartScript {
-		_, _, vs := s.Apply(op)
-		vs = append(vs, s.Check()...)
-		steps++
-		for _, v := range vs {
-			if strings.HasPrefix(v.Sig, prop+":") && !seen[v.Sig] {
-				seen[v.Sig] = true
-				out = append(out, ScriptViol{v, append([]string{}, RestartScript[:i+1]...)})
+	for _, script := range [][]string{RestartScript, ManySendsScript} {
+		s := New(Config{Chains: 3, MaxSends: 14, Prop: prop})
+		for i, op := range script {
+			_, _, vs := s.Apply(op)
+			vs = append(vs, s.Check()...)
+			steps++
+			for _, v := range vs {
+				if strings.HasPrefix(v.Sig, prop+":") && !seen[v.Sig] {
+					seen[v.Sig] = true
+					out = append(out, ScriptViol{v, append([]string{}, script[:i+1]...)})
+				}
 			}
 		}
 	}
